@@ -175,6 +175,25 @@ static void print_all_values(const lp_polynomial_t* A, const lp_int_ring_t* K) {
   lp_assignment_delete(m);
 }
 
+/* an independently built copy of a polynomial: its non-zero monomials added up by ring arithmetic, which yields
+ * the canonical recursive representation (no zero leading coefficient, no constant wrapped as a polynomial) */
+typedef struct { const lp_polynomial_context_t* ctx; lp_polynomial_t* acc; } rebuild_t;
+static void rebuild_cb(const lp_polynomial_context_t* ctx, lp_monomial_t* m, void* data) {
+  rebuild_t* r = (rebuild_t*)data;
+  if (mpz_sgn(&m->a) == 0) return;
+  lp_integer_t one; mpz_init_set_ui(&one, 1);
+  lp_polynomial_t* t = lp_polynomial_alloc();
+  lp_polynomial_construct_simple(t, ctx, &m->a, g_var[0], 0);
+  for (size_t i = 0; i < m->n; i++) if (m->p[i].d > 0) {
+    lp_polynomial_t* u = lp_polynomial_alloc();
+    lp_polynomial_construct_simple(u, ctx, &one, m->p[i].x, (unsigned)m->p[i].d);
+    lp_polynomial_mul(t, t, u);
+    lp_polynomial_delete(u);
+  }
+  lp_polynomial_add(r->acc, r->acc, t);
+  lp_polynomial_delete(t); mpz_clear(&one);
+}
+
 static void do_roots(lp_int_ring_t* K, int first, int force) {
   int n = vntok - first;
   lp_integer_t* c = malloc((size_t)n * sizeof(lp_integer_t));
@@ -399,6 +418,22 @@ int main(void) {
       lp_polynomial_reduce_degree_Zp(R4, R1);
       if (!same_poly_print(R1, R4)) printf(" MISMATCH-not-idempotent");
       lp_polynomial_delete(R4);
+      /* the result must be in canonical form: compare it, its main variable, degree, constant-ness and hash/eq with
+       * the reference polynomial rebuilt from its non-zero monomials */
+      {
+        rebuild_t rb; rb.ctx = ctx; rb.acc = lp_polynomial_new(ctx);
+        lp_polynomial_traverse(R1, rebuild_cb, &rb);
+        int c1 = lp_polynomial_is_constant(R1) ? 1 : 0, c2 = lp_polynomial_is_constant(rb.acc) ? 1 : 0;
+        if (c1 != c2) printf(" MISMATCH-is_constant=%d(reference %d)", c1, c2);
+        if (!c1 && !c2) {
+          if (lp_polynomial_top_variable(R1) != lp_polynomial_top_variable(rb.acc)) printf(" MISMATCH-top-variable");
+          if (lp_polynomial_degree(R1) != lp_polynomial_degree(rb.acc))
+            printf(" MISMATCH-degree=%zu(reference %zu)", lp_polynomial_degree(R1), lp_polynomial_degree(rb.acc));
+        }
+        if (lp_polynomial_cmp(R1, rb.acc) != 0) printf(" MISMATCH-cmp-with-reference");
+        if (!lp_polynomial_eq(R1, rb.acc)) printf(" MISMATCH-eq-with-reference");
+        lp_polynomial_delete(rb.acc);
+      }
       lp_polynomial_delete(A); lp_polynomial_delete(R1); lp_polynomial_delete(R3);
       lp_polynomial_context_detach(ctx);
     } else {
